@@ -1,5 +1,6 @@
 """C08 — corrupt scan-line times are repaired, and times are always returned."""
 import json
+import os
 
 import numpy as np
 
@@ -285,6 +286,28 @@ def year_midnight_pass(rng, k):
                 "frac": 0.01, "kinds": ["year"]}
 
 
+class local_zone:
+    """run a block with the process's local time zone set to something other than UTC (the times of the files are UTC:
+    nothing may depend on the zone of the machine that reads them)"""
+
+    def __init__(self, tz):
+        self.tz = tz
+
+    def __enter__(self):
+        import time
+        self.old = os.environ.get("TZ")
+        os.environ["TZ"] = self.tz
+        time.tzset()
+
+    def __exit__(self, *a):
+        import time
+        if self.old is None:
+            os.environ.pop("TZ", None)
+        else:
+            os.environ["TZ"] = self.old
+        time.tzset()
+
+
 def run(ctx):
     drv = []
     for k in range(ctx.n(8, 40)):
@@ -298,7 +321,12 @@ def run(ctx):
             ctx.sample({"fmt": tp.fmt, "info": info, "nums": tp.nums[:6]})
     for k in range(ctx.n(40, 70)):
         tp, info = long_pass(ctx.rng, ctx.thorough, k)
-        check_repair(ctx, tp, info, drv)
+        if k % 2:
+            info["local_zone"] = ["CET-1", "EST5", "NZST-12"][k % 3]
+            with local_zone(info["local_zone"]):
+                check_repair(ctx, tp, info, drv)
+        else:
+            check_repair(ctx, tp, info, drv)
         if k < 2:
             ctx.sample({"fmt": tp.fmt, "info": info, "nums": tp.nums[:6]})
     for k in range(ctx.n(120, 600)):
